@@ -18,6 +18,6 @@ CONSTANTS
  AnyOrder = TRUE
  Lens = {2}
  IncVals = {0,1}
-INVARIANTS TypeOK TelSums TelDropSplit RoundPackets HistPointsAreValues Contexts ExactlyOnce NothingLost TelVsSocket SocketConservation TelemetryOff LazyInit FeedbackReg
+INVARIANTS TypeOK TelSums TelDropSplit RoundPackets HistPointsAreValues Contexts ExactlyOnce NothingLost TelVsSocket SocketConservation Attempts TelemetryOff LazyInit FeedbackReg
 PROPERTIES Monotone
 CHECK_DEADLOCK FALSE
